@@ -37,6 +37,8 @@ _env = {}
 
 
 def gen(r, tier, i):
+    if r.random() < 0.06:
+        return gen_flat(r)
     n = r.randint(1, 3)
     procs = []
     for pid in range(n):
@@ -276,7 +278,67 @@ def run_once(spec, emit_step):
     return m, ok, exc
 
 
+def gen_flat(r):
+    """Every variable is a leaf directly under the root (ports wired to root-level nodes); often nothing at
+    all is flagged for emission: the rows are empty but there is still one per update time."""
+    n = r.randint(1, 3)
+    none = r.random() < 0.5
+    procs = [{'pid': pid, 'ts': r.choice(TS), 'emit': {v: (not none and r.random() < 0.5) for v in ('a', 'b')}} for pid in range(n)]
+    calls = [[r.choice(IV[:5]), r.choice([True, False, 'update'])] for _ in range(r.randint(1, 3))] + [[r.choice([1.0, 2.0, 2.5]), 'update']]
+    return {'family': 'flat', 'procs': procs, 'calls': calls, 't0': r.choice([0, 0, 2.0]), 'empty_store': r.random() < 0.5}
+
+
+def run_flat(spec):
+    from vmon.sensors import MonEngine, Mon, drive
+    from vivarium.core.process import Process
+    V = Viol()
+
+    class FlatProc(Process):
+        def ports_schema(self):
+            pid = self.parameters['pid']
+            return {'%s%d' % (v, pid): {'_default': 0, '_emit': on} for v, on in self.parameters['emit'].items()}
+
+        def calculate_timestep(self, states):
+            return self.parameters['ts']
+
+        def next_update(self, timestep, states):
+            return {k: 1 for k in states}
+    processes = {'p%d' % p['pid']: FlatProc(dict(p)) for p in spec['procs']}
+    topology = {'p%d' % p['pid']: {'%s%d' % (v, p['pid']): ('%s%d' % (v, p['pid']),) for v in p['emit']} for p in spec['procs']}
+    m = Mon()
+    Mon.cur = m
+    try:
+        e = MonEngine(processes=processes, topology=topology, display_info=False,
+                      initial_state={'void': {}} if spec.get('empty_store') else None,
+                      emitter={'type': 'vmon_rec', 'snapshot': True}, initial_global_time=spec['t0'])
+        ok, exc = drive(e, m, spec['calls'], lambda iv: 4000)
+    except Exception as ex:
+        import traceback
+        V.check('no_exception', False, ('flat composite raised', type(ex).__name__, str(ex)[:200], traceback.format_exc()[-300:]))
+        return {'viol': list(V), 'evals': V.evals, 'nontrivial': False}
+    finally:
+        Mon.cur = None
+    if not ok:
+        V.check('no_exception', False, ('run did not return normally', repr(exc)[:300]))
+    hist = [ev for ev in m.events if ev[0] == 'emit' and ev[1] == 'history']
+    times = [ev[2] for ev in hist]
+    due = due_times(dict(spec, no_director=True))
+    V.check('initial_row', bool(times) and times[0] == spec['t0'], lambda: ('no row for the initial time', times[:5]))
+    if ok:
+        V.check('row_per_update_time', times[1:] == due,
+                lambda: ('rows are not exactly one per time at which updates were applied (rows, update times)', times[:20], due[:20]))
+    on = {'%s%d' % (v, p['pid']) for p in spec['procs'] for v, f in p['emit'].items() if f}
+    for ev in hist:
+        exp = {k: v for k, v in ev[4].items() if k in on}
+        V.check('row_content', _eq(prune(ev[3]), prune(exp)),
+                lambda: ('row at t=%r differs from the flagged root-level variables' % ev[2], ev[3], exp))
+    return {'viol': list(V), 'evals': V.evals, 'nontrivial': len(hist) >= 3, 'classes': ['flat_root', 'nothing_flagged' if not on else 'some_flagged'],
+            'summary': {'rows': len(hist)}}
+
+
 def run(spec):
+    if spec.get('family') == 'flat':
+        return run_flat(spec)
     V = Viol()
     try:
         m, ok, exc = run_once(spec, 1)
@@ -399,7 +461,7 @@ def due_times(spec):
     from vmon import sched
     calls = [(iv, bool(f)) for iv, f in spec['calls']]
     due = set()
-    for ts in [p['ts'] for p in spec['procs']] + [1.0]:
+    for ts in [p['ts'] for p in spec['procs']] + ([] if spec.get('no_director') else [1.0]):
         ivs, S, t = sched.model_always_on({'ts': {'kind': 'const', 'v': ts}}, calls, spec['t0'], 'dyadic')
         due.update(float(E) for (k, S_k, E, arg) in ivs)
     return sorted(due)
